@@ -4,11 +4,13 @@
 From C12 Require Import Model Spec Lists LinProofs ClassProofs HistProofs.
 
 Definition CacheInv (w : world) : Prop :=
+  lookup (reg w) TT = None /\
   forall k g key l, lookup (gfs w) k = Some g -> lookup (g_cache g) key = Some l ->
-    l <> [] /\ exists id c, registered w key id c /\ co_prec c <> [] /\ l = applicable g (co_prec c).
+    l <> [] /\ ((key = TT /\ l = applicable g [TT]) \/
+                exists id c, registered w key id c /\ co_prec c <> [] /\ l = applicable g (co_prec c)).
 
 Lemma CacheInv_w0 : CacheInv w0.
-Proof. intros k g key l H. discriminate. Qed.
+Proof. split; [reflexivity|]. intros k g key l H. discriminate. Qed.
 
 Lemma CacheInv_heap_reg_gfs : forall w w', heap w' = heap w -> reg w' = reg w -> gfs w' = gfs w -> CacheInv w -> CacheInv w'.
 Proof.
@@ -17,7 +19,7 @@ Qed.
 
 Lemma add_method_cache : forall w k c, CacheInv w -> CacheInv (add_method w k c).
 Proof.
-  intros w k c H k' g key l Hl Hc. unfold add_method in Hl. simpl in Hl.
+  intros w k c [HT H]. split; [exact HT|]. intros k' g key l Hl Hc. unfold add_method in Hl. simpl in Hl.
   destruct (Nat.eq_dec k' k) as [->|Hne].
   - rewrite lookup_set_same in Hl. inversion Hl; subst g. simpl in Hc. discriminate.
   - rewrite lookup_set_other in Hl by assumption. exact (H k' g key l Hl Hc).
@@ -31,9 +33,12 @@ Lemma fold_slot_methods_cache : forall slots w n, CacheInv w -> CacheInv (fold_l
 Proof. induction slots as [|sd r IH]; intros w n H; simpl; [assumption|]. apply IH. apply slot_methods_cache. assumption. Qed.
 
 (* ---- a call ------------------------------------------------------------------------------------ *)
+Lemma hier_nonnil : forall c, hier c <> [].
+Proof. intros c. unfold hier, hier_of. destruct (co_prec c); discriminate. Qed.
+
 Theorem call_gf_spec : forall w k i, Inv w -> CacheInv w -> current w i = true ->
   exists ins c, nth_error (insts w) i = Some ins /\ registered w (co_name c) (i_cid ins) c /\
-    snd (call_gf w k i) = (match applicable (get_gf w k) (co_prec c) with [] => None | l => Some l end) /\
+    snd (call_gf w k i) = (match applicable (get_gf w k) (hier c) with [] => None | l => Some l end) /\
     CacheInv (fst (call_gf w k i)).
 Proof.
   intros w k i HI HC Hcur. unfold current in Hcur.
@@ -42,145 +47,78 @@ Proof.
   destruct (lookup (reg w) (co_name c)) as [id|] eqn:L; [|discriminate].
   apply Nat.eqb_eq in Hcur. subst id.
   exists ins, c. split; [reflexivity|]. split; [split; assumption|].
-  unfold call_gf. rewrite Ei, Gc.
-  destruct (co_prec c) as [|key p] eqn:Ep.
-  - cbn [fst snd]. split; [reflexivity | assumption].
-  - assert (key = co_name c) as Hkey.
-    { destruct HI as [[_ HJ] _]. destruct (HJ (co_name c) (i_cid ins) c (conj L Gc)) as [_ H].
+  unfold call_gf. rewrite Ei, Gc. pose proof HC as [HT HCe].
+  destruct (hier c) as [|key p] eqn:Eh; [exfalso; exact (hier_nonnil c Eh)|].
+  (* the key is t for a class that is not ready, the class name otherwise *)
+  assert (Hkey : (co_prec c = [] /\ key = TT /\ p = []) \/ (co_prec c = key :: p /\ key = co_name c)).
+  { unfold hier, hier_of in Eh. destruct (co_prec c) as [|k0 p0] eqn:Ep.
+    - left. inversion Eh. auto.
+    - right. inversion Eh; subst k0 p0. split; [reflexivity|].
+      destruct HI as [[_ HJ] _]. destruct (HJ (co_name c) (i_cid ins) c (conj L Gc)) as [_ H].
       destruct (H (fun x => x)) as [[_ [_ [Hp _]]]|[Hb _]]; [|congruence]. rewrite Hp in Ep. unfold mk_prec in Ep. inversion Ep. reflexivity. }
-    destruct (lookup (g_cache (get_gf w k)) key) as [l|] eqn:El.
-    + cbn [fst snd]. split; [|assumption].
-      unfold get_gf in El. destruct (lookup (gfs w) k) as [g|] eqn:Eg; [|discriminate].
-      destruct (HC k g key l Eg El) as [Hne [id' [c' [[L' G'] [_ Hl]]]]].
-      rewrite Hkey in L'. rewrite L in L'. inversion L'; subst id'. rewrite Gc in G'. inversion G'; subst c'.
-      unfold get_gf. rewrite Eg. rewrite Ep in Hl. rewrite <- Hl. destruct l; [contradiction | reflexivity].
-    + destruct (applicable (get_gf w k) (key :: p)) as [|a l] eqn:Ea.
-      * cbn [fst snd]. split; [reflexivity | assumption].
-      * cbn [fst snd]. split; [reflexivity|].
-        intros k' g' key' l' Hl' Hc'. cbn [gfs with_gfs] in Hl'.
-        destruct (Nat.eq_dec k' k) as [->|Hne].
-        -- rewrite lookup_set_same in Hl'. inversion Hl'; subst g'. simpl in Hc'.
-           destruct (Nat.eq_dec key' key) as [->|Hk].
-           ++ rewrite lookup_set_same in Hc'. inversion Hc'; subst l'. split; [discriminate|].
-              exists (i_cid ins), c. split; [split; [rewrite Hkey; assumption | assumption]|]. split; [congruence|].
-              rewrite Ep. unfold applicable in *. simpl g_methods. symmetry. assumption.
-           ++ rewrite lookup_set_other in Hc' by assumption.
-              unfold get_gf in Hc'. destruct (lookup (gfs w) k) as [g|] eqn:Eg; [|discriminate].
-              destruct (HC k g key' l' Eg Hc') as [A [id' [c' [B [C Dd]]]]]. split; [assumption|].
-              exists id', c'. split; [assumption|]. split; [assumption|]. unfold get_gf in Dd |- *. rewrite Eg. assumption.
-        -- rewrite lookup_set_other in Hl' by assumption. exact (HC k' g' key' l' Hl' Hc').
+  destruct (lookup (g_cache (get_gf w k)) key) as [l|] eqn:El.
+  + cbn [fst snd]. split; [|assumption].
+    unfold get_gf in El. destruct (lookup (gfs w) k) as [g|] eqn:Eg; [|discriminate].
+    destruct (HCe k g key l Eg El) as [Hne Hd].
+    unfold get_gf. rewrite Eg.
+    assert (l = applicable g (key :: p)) as ->; [|destruct (applicable g (key :: p)); [contradiction | reflexivity]].
+    destruct Hkey as [[Hb [-> ->]]|[Ep Hk]].
+    * destruct Hd as [[_ Hl]|[id' [c' [[L' _] _]]]]; [assumption | congruence].
+    * destruct Hd as [[Hk' _]|[id' [c' [[L' G'] [_ Hl]]]]].
+      -- assert (co_name c = TT) as Hn by congruence. rewrite Hn in L. congruence.
+      -- rewrite Hk in L'. rewrite L in L'. inversion L'; subst id'. rewrite Gc in G'. inversion G'; subst c'. rewrite Ep in Hl. assumption.
+  + destruct (applicable (get_gf w k) (key :: p)) as [|a l] eqn:Ea.
+    * cbn [fst snd]. split; [reflexivity | assumption].
+    * cbn [fst snd]. split; [reflexivity|]. split; [exact HT|].
+      intros k' g' key' l' Hl' Hc'. cbn [gfs with_gfs] in Hl'.
+      destruct (Nat.eq_dec k' k) as [->|Hne].
+      -- rewrite lookup_set_same in Hl'. inversion Hl'; subst g'. simpl in Hc'.
+         destruct (Nat.eq_dec key' key) as [->|Hk].
+         ++ rewrite lookup_set_same in Hc'. inversion Hc'; subst l'. split; [discriminate|].
+            destruct Hkey as [[Hb [-> ->]]|[Ep Hk]].
+            ** left. split; [reflexivity|]. unfold applicable in *. simpl g_methods. symmetry. assumption.
+            ** right. exists (i_cid ins), c. split; [split; [rewrite Hk; assumption | assumption]|]. split; [congruence|].
+               rewrite Ep. unfold applicable in *. simpl g_methods. symmetry. assumption.
+         ++ rewrite lookup_set_other in Hc' by assumption.
+            unfold get_gf in Hc'. destruct (lookup (gfs w) k) as [g|] eqn:Eg; [|discriminate].
+            destruct (HCe k g key' l' Eg Hc') as [A Hd]. split; [assumption|].
+            unfold get_gf. rewrite Eg. simpl g_methods. exact Hd.
+      -- rewrite lookup_set_other in Hl' by assumption. exact (HCe k' g' key' l' Hl' Hc').
 Qed.
 
 (* ---- defclass ------------------------------------------------------------------------------------ *)
-Lemma ready_pass_keeps_ready : forall l w w' ch, ready_pass w l = (w', ch) -> forall j, readyb w j = true -> get w' j = get w j /\ readyb w' j = true.
+(* classChanged ends with ClearCaches: no entry survives a defclass, so none can be stale *)
+Lemma lookup_map_snd : forall A B (f : A -> B) (l : list (nat * A)) k,
+  lookup (map (fun kv => (fst kv, f (snd kv))) l) k = match lookup l k with Some v => Some (f v) | None => None end.
 Proof.
-  induction l as [|id r IH]; intros w w' ch H j Hj; simpl in H.
-  - inversion H; subst. auto.
-  - destruct (readyb w id) eqn:R.
-    + eapply IH; eassumption.
-    + destruct (merge w id) as [w1 ok] eqn:M. destruct (ready_pass w1 r) as [w2 ch2] eqn:P. inversion H; subst w2.
-      destruct (merge_ext _ _ _ _ M) as [E Hother].
-      assert (j <> id) as Hne by (intros ->; congruence).
-      assert (readyb w1 j = true) as Hj1 by (unfold readyb; rewrite (Hother j Hne); exact Hj).
-      destruct (IH w1 w' ch2 P j Hj1) as [A B]. split; [rewrite A; apply Hother; assumption | assumption].
+  induction l as [|[k' v] r IH]; intros k; simpl; [reflexivity|].
+  destruct (Nat.eqb k k'); [reflexivity | apply IH].
 Qed.
-Lemma ready_loop_keeps_ready : forall l fuel w j, readyb w j = true -> get (ready_loop fuel w l) j = get w j.
+Lemma clear_caches_empty : forall w k g, lookup (gfs (clear_caches w)) k = Some g -> g_cache g = [].
 Proof.
-  intros l. induction fuel as [|f IH]; intros w j Hj; simpl; [reflexivity|].
-  destruct (ready_pass w l) as [w1 ch] eqn:P. destruct (ready_pass_keeps_ready l w w1 ch P j Hj) as [A B].
-  destruct ch; [rewrite IH by assumption; assumption | assumption].
+  intros w k g H. unfold clear_caches in H. cbn [gfs with_gfs] in H.
+  rewrite (lookup_map_snd _ _ (fun g => mkGF (g_methods g) [])) in H.
+  destruct (lookup (gfs w) k); inversion H. reflexivity.
 Qed.
-Lemma class_changed_keeps : forall n corder w j, inherits w j n = false -> get (class_changed w n corder) j = get w j.
-Proof.
-  intros n. unfold class_changed. induction corder as [|id r IH]; intros w j Hj; simpl; [reflexivity|].
-  destruct (inherits w id n) eqn:Hi.
-  - destruct (merge w id) as [w1 ok] eqn:M. simpl. destruct (merge_ext _ _ _ _ M) as [_ Hother].
-    assert (j <> id) as Hne by (intros ->; congruence).
-    rewrite IH; [apply Hother; assumption|]. unfold inherits. rewrite (Hother j Hne). exact Hj.
-  - apply IH. assumption.
-Qed.
-
-Lemma defclass_gfs : forall w n supers slots ro co, Inv w -> g_defclass w n supers slots ro co = true ->
-  gfs (defclass w n supers slots ro co) = gfs (fold_left (fun w sd => slot_methods w n sd) slots w) /\
+Lemma defclass_reg_eq : forall w n supers slots ro co, Inv w -> g_defclass w n supers slots ro co = true ->
   reg (defclass w n supers slots ro co) = set_assoc (reg w) n (length (heap w)).
 Proof.
-  intros w n supers slots ro co HI G. destruct (defclass_inv w n supers slots ro co HI G) as [_ [R [Gf _]]].
-  rewrite Gf, R. destruct (defclass_reg_shape w n supers slots) as [R' _]. split; [|assumption].
-  unfold defclass_reg. simpl.
-  set (w1 := fold_left (fun w sd => slot_methods w n sd) slots w).
-  destruct (merge_ext _ _ _ _ (surjective_pairing (merge (with_heap w1 (heap w1 ++ [mkCO n supers slots [] [] [] []])) (length (heap w))))) as [[_ [Gm _]] _].
-  rewrite Gm. reflexivity.
-Qed.
-
-Lemma add_method_entry : forall w k' c' k g0 key l, lookup (gfs (add_method w k' c')) k = Some g0 ->
-  lookup (g_cache g0) key = Some l -> lookup (gfs w) k = Some g0.
-Proof.
-  intros w k' c' k g0 key l H1 H2. unfold add_method in H1. simpl in H1. destruct (Nat.eq_dec k k') as [->|Hne'].
-  - rewrite lookup_set_same in H1. inversion H1; subst g0. simpl in H2. discriminate.
-  - rewrite lookup_set_other in H1 by assumption. assumption.
-Qed.
-(* an entry that survives the definition of the accessor methods was there before *)
-Lemma fold_slot_methods_entry : forall slots w n k g0 key l,
-  lookup (gfs (fold_left (fun w sd => slot_methods w n sd) slots w)) k = Some g0 ->
-  lookup (g_cache g0) key = Some l -> lookup (gfs w) k = Some g0.
-Proof.
-  induction slots as [|sd r IHs]; intros w n k g0 key l Hl Hc; simpl in Hl; [assumption|].
-  pose proof (IHs _ n k g0 key l Hl Hc) as A. unfold slot_methods in A.
-  destruct (sd_reader sd), (sd_writer sd), (sd_accessor sd);
-    repeat (match goal with H : lookup (gfs (add_method _ _ _)) k = Some g0 |- _ => apply (add_method_entry _ _ _ k g0 key l) in H; [|assumption] end); assumption.
+  intros w n supers slots ro co HI G. destruct (defclass_inv w n supers slots ro co HI G) as [_ [R _]].
+  change (reg (defclass w n supers slots ro co)) with (reg (defclass_merged w n supers slots ro co)). rewrite R.
+  destruct (defclass_reg_shape w n supers slots) as [R' _]. assumption.
 Qed.
 
 Theorem defclass_cache : forall w n supers slots ro co, Inv w -> CacheInv w ->
   g_defclass w n supers slots ro co = true -> CacheInv (defclass w n supers slots ro co).
 Proof.
-  intros w n supers slots ro co HI HC G.
-  destruct (defclass_gfs w n supers slots ro co HI G) as [Hg Hr].
-  destruct (defclass_inv w n supers slots ro co HI G) as [_ E].
-  set (w1 := fold_left (fun w sd => slot_methods w n sd) slots w) in *.
-  pose proof (fold_slot_methods_cache slots w n HC) as HC1. fold w1 in HC1.
-  destruct (fold_slot_methods_frame slots w n) as [Hh1 [Hr1 _]]. fold w1 in Hh1, Hr1.
-  intros k g key l Hl Hc. rewrite Hg in Hl.
-  destruct (HC1 k g key l Hl Hc) as [Hne [id [c [[L1 G1] [Hp Happ]]]]]. split; [assumption|].
-  rewrite Hr1 in L1. unfold get in G1. rewrite Hh1 in G1. fold (get w id) in G1.
-  assert (registered w key id c) as Hreg by (split; assumption).
-  pose proof (old_id_lt w HI key id L1) as Hlt.
-  (* the class under this key is ready, is not n and does not inherit n *)
-  assert (key <> n /\ inherits w id n = false) as [Hkn Hni].
-  { destruct (g_defclass_parts _ _ _ _ _ _ G) as [_ [_ [_ [_ [_ Hcase]]]]].
-    assert (good w key c) as Hgood.
-    { destruct HI as [[_ HJ] _]. destruct (HJ key id c Hreg) as [_ H]. destruct (H (fun x => x)) as [Hg'|[Hb _]]; [assumption | contradiction]. }
-    assert (HA : (forall id' c', registered w n id' c' -> co_prec c' = []) -> key <> n /\ inherits w id n = false).
-    { intros HA. destruct (caseA_not_mentioned w n HI HA key id c Hreg Hgood) as [A B]. split; [assumption|].
-      unfold inherits. rewrite G1. rewrite inh_has_memb. apply memb_false. assumption. }
-    destruct (lookup (reg w) n) as [old|] eqn:Lold.
-    - destruct (readyb w old) eqn:Rold.
-      + repeat (apply andb_true_iff in Hcase; destruct Hcase as [Hcase ?]).
-        match goal with Hk : forallb _ (cache_keys w) = true |- _ => rename Hk into Gcache end.
-        assert (In key (cache_keys w)) as Hin.
-        { unfold cache_keys. apply in_flat_map.
-          (* the entry was in w's gfs already: slot_methods only empties caches *)
-          pose proof (fold_slot_methods_entry slots w n k g key l Hl Hc) as Hg0. pose proof Hc as Hc0.
-          exists (k, g). split; [apply lookup_In; assumption|]. simpl. apply in_map_iff. exists (key, l). split; [reflexivity | apply lookup_In; assumption]. }
-        pose proof (forallb_In _ _ _ key Gcache Hin) as Hb. apply negb_true_iff in Hb. apply memb_false in Hb.
-        split.
-        * intros ->. apply Hb. left. reflexivity.
-        * destruct (inherits w id n) eqn:Ei; [|reflexivity]. exfalso. apply Hb. right. apply in_flat_map. exists id.
-          split; [apply sub_ids_In; split; [eapply registered_reg_ids; eassumption | assumption]|].
-          unfold name_of. rewrite G1. left. destruct HI as [[[_ HW] _] _]. destruct (HW key id L1) as [c' [Gc' [Nc' _]]]. congruence.
-      + apply HA. intros id' c' [L' G']. rewrite Lold in L'. inversion L'; subst id'.
-        destruct (co_prec c') eqn:E'; [reflexivity|]. exfalso.
-        assert (readyb w old = true) by (apply readyb_true; exists c'; split; [assumption | congruence]). congruence.
-    - apply HA. intros id' c' [L' _]. congruence. }
-  (* so its object is untouched *)
-  exists id, c. split; [|split; assumption]. split.
-  - rewrite Hr. rewrite lookup_set_other by assumption. assumption.
-  - unfold defclass, defclass_pre.
-    set (wr := defclass_reg w n supers slots).
-    assert (get wr id = Some c) as Gwr by (unfold wr; rewrite (get_wr_old w n supers slots id Hlt); assumption).
-    assert (readyb wr id = true) as Rwr by (apply readyb_true; exists c; split; assumption).
-    assert (get (make_ready wr ro) id = Some c) as Gpre by (unfold make_ready; rewrite ready_loop_keeps_ready; assumption).
-    rewrite class_changed_keeps; [assumption|].
-    unfold inherits. rewrite Gpre. unfold inherits in Hni. rewrite G1 in Hni. assumption.
+  intros w n supers slots ro co HI [HT _] G.
+  assert (n <> TT) as HnT.
+  { unfold g_defclass in G. repeat (apply andb_true_iff in G; destruct G as [G ?]).
+    apply Nat.ltb_lt in G. unfold SO, TT in *. lia. }
+  split.
+  - rewrite (defclass_reg_eq w n supers slots ro co HI G).
+    rewrite lookup_set_other by (intro Hc; apply HnT; symmetry; exact Hc). exact HT.
+  - intros k g key l Hl Hc. unfold defclass in Hl. rewrite (clear_caches_empty _ k g Hl) in Hc. discriminate.
 Qed.
 
 (* ---- every guarded step, every guarded history ---------------------------------------------------- *)
